@@ -260,7 +260,7 @@ func c17Ops(thorough bool) []c17Op {
 		}
 	}
 	// every status with a small value of every kind
-	for st := 100; st <= 599; st++ {
+	for st := 100; st <= 999; st++ { // everything net/http accepts as a status code
 		ops = append(ops, c17Op{"JSON", st, map[string]interface{}{"k": "v"}}, c17Op{"XML", st, c17Flat{A: "x"}}, c17Op{"Binary", st, []byte{0, 255}}, c17Op{"PlainText", st, "text"})
 	}
 	for _, st := range []int{200, 404, 503} {
@@ -293,7 +293,7 @@ func c17Run(r *core.Run) {
 		}
 	}
 	ops := c17Ops(r.Thorough())
-	r.Rule = "engine E: every status 100..599 x {JSON, XML, Binary, PlainText} x all 8 option sets (charset x JSON indent x XML indent); values: every byte string of length <=1 and a grid (thorough: all) of length 2 plus longer ones for Binary/PlainText, JSON trees over {null,bool,numbers,strings incl. html-sensitive and non-ASCII} to depth 2 width 2 plus structs/slices/maps, five XML struct shapes with all field values from {'', a, <&>\", e-acute, blanks, ]]>}; oracle: exact status at the underlying writer, exact Content-Type, bytes/strings verbatim, JSON/XML text equal to the standard encoder's output with the configured indentation and decoding back to an equal value; non-trivial = non-200 status or a value that needs escaping"
+	r.Rule = "engine E: every status 100..999 x {JSON, XML, Binary, PlainText} x all 8 option sets (charset x JSON indent x XML indent); values: every byte string of length <=1 and a grid (thorough: all) of length 2 plus longer ones for Binary/PlainText, JSON trees over {null,bool,numbers,strings incl. html-sensitive and non-ASCII} to depth 2 width 2 plus structs/slices/maps, five XML struct shapes with all field values from {'', a, <&>\", e-acute, blanks, ]]>}; oracle: exact status at the underlying writer, exact Content-Type, bytes/strings verbatim, JSON/XML text equal to the standard encoder's output with the configured indentation and decoding back to an equal value; non-trivial = non-200 status or a value that needs escaping"
 	r.Bounds["ops"] = len(ops)
 	r.Bounds["option_sets"] = len(optsets)
 	r.Assumptions = []string{"encoding/json and encoding/xml are the reference encoders (trusted)", "values the standard encoders refuse are outside the statement"}
